@@ -83,7 +83,8 @@ class C09(PropBase):
         g = Gen(rng, big=init["big"])
         x = rng.random()
         if se.inbox and x < 0.45:
-            return {"op": "deliver", "to": "c", "n": policy.chunk_len(rng, len(se.inbox), init["chunk"])}
+            bk, scr = policy.buf_kind(rng)
+            return {"op": "deliver", "to": "c", "n": policy.chunk_len(rng, len(se.inbox), init["chunk"]), "buf": bk, "scribble": scr}
         if x < 0.5:
             return {"op": "drain", "who": "c", "n": rng.choice([None, None, 0, 3])}
         want_resp = model.out and x < 0.78
